@@ -351,6 +351,20 @@ type dirExpect struct {
 	Lossy   bool // some sent byte is in no captured datagram
 	Behind  bool // data bytes behind the first missing byte were captured
 	FinSeen bool // a FIN of this direction was captured behind the first missing byte
+	Wrap    bool // the sequence numbers of this direction pass 2^32
+	// AfterFins: this direction closes second and one of its data segments
+	// arrives after its own FIN with no packet of the peer in between
+	AfterFins bool
+	// NoStart: the SYN of this direction is not in the capture (server
+	// direction with a lost SYN+ACK): where the stream starts is unknowable,
+	// nothing but the endpoint is asserted.  PeerNoStart: the other direction has NoStart.
+	NoStart     bool
+	PeerNoStart bool
+	// FragOpts: a datagram of this direction that carries IPv4 options was fragmented
+	FragOpts bool
+	// FragCoincide: a fragmented datagram of this direction is completed by a
+	// fragment whose own total length equals the payload length of the whole datagram
+	FragCoincide bool
 }
 
 type connExpect struct {
@@ -367,6 +381,11 @@ type reasmExpect struct {
 type expectation struct {
 	Conns []connExpect
 	Reasm []reasmExpect
+	// FragOpts: some fragmented datagram carries IPv4 options
+	FragOpts bool
+	// FragCoincide: see dirExpect
+	FragCoincide bool
+	coincide     map[int]bool
 }
 
 // expect derives the observation a faithful reassembler must make from the
@@ -379,18 +398,25 @@ func (cv *conv) expect() expectation {
 		first bool
 	}
 	captured := map[int]bool{}
+	arrival := map[int]int{} // segment -> wire position of its first complete arrival
 	frs := map[int]*fragState{}
 	var connOrder []int
 	seenConn := map[int]bool{}
-	for _, w := range cv.wire {
+	for pos, w := range cv.wire {
 		s := cv.segs[w.Seg]
 		if !seenConn[s.Conn] {
 			seenConn[s.Conn] = true
 			connOrder = append(connOrder, s.Conn)
 		}
 		if w.NFrag == 1 {
+			if !captured[w.Seg] {
+				arrival[w.Seg] = pos
+			}
 			captured[w.Seg] = true
 			continue
+		}
+		if cv.Conns[s.Conn].IPOpt {
+			ex.FragOpts = true
 		}
 		st := frs[w.Seg]
 		if st == nil {
@@ -400,7 +426,15 @@ func (cv *conv) expect() expectation {
 		st.seen[w.Frag] = true
 		if len(st.seen) == w.NFrag && !captured[w.Seg] {
 			captured[w.Seg] = true
+			arrival[w.Seg] = pos
 			c := cv.Conns[s.Conn]
+			if len(w.Net) == len(cv.tcp[w.Seg]) {
+				ex.FragCoincide = true
+				if ex.coincide == nil {
+					ex.coincide = map[int]bool{}
+				}
+				ex.coincide[w.Seg] = true
+			}
 			ex.Reasm = append(ex.Reasm, reasmExpect{Src: net.IP(c.ip(s.Dir)).String(), Dst: net.IP(c.ip(1 - s.Dir)).String(), Payload: cv.tcp[w.Seg], Seg: w.Seg})
 		}
 	}
@@ -437,7 +471,57 @@ func (cv *conv) expect() expectation {
 				}
 			}
 			de.FinSeen = de.Lossy && finAt > first
+			for si, s := range cv.segs {
+				if s.Conn == ci && s.Dir == d && ex.coincide[si] {
+					de.FragCoincide = true
+				}
+			}
+			if c.IPOpt {
+				for _, w := range cv.wire {
+					if s := cv.segs[w.Seg]; w.NFrag > 1 && s.Conn == ci && s.Dir == d {
+						de.FragOpts = true
+					}
+				}
+			}
+			de.Wrap = uint64(c.isn(d))+2+uint64(len(sent)) > 1<<32
 			ce.Dir[d] = de
+		}
+		for si, s := range cv.segs {
+			if s.Conn == ci && s.Kind == "synack" && !captured[si] {
+				ce.Dir[1].NoStart = true
+				ce.Dir[0].PeerNoStart = true
+			}
+		}
+		// data overtaken by the FIN of a direction that closes second
+		finPos := [2]int{-1, -1}
+		for si, s := range cv.segs {
+			if s.Conn == ci && captured[si] && s.Flags&pcapgen.FIN != 0 && (finPos[s.Dir] < 0 || arrival[si] < finPos[s.Dir]) {
+				finPos[s.Dir] = arrival[si]
+			}
+		}
+		for d := 0; d < 2; d++ {
+			if finPos[d] < 0 || finPos[1-d] < 0 || finPos[1-d] > finPos[d] {
+				continue
+			}
+			for si, s := range cv.segs {
+				if s.Conn != ci || s.Dir != d || s.Len == 0 || !captured[si] || arrival[si] < finPos[d] {
+					continue
+				}
+				peerBetween := false
+				for sj, o := range cv.segs {
+					if o.Conn == ci && o.Dir == 1-d && captured[sj] {
+						// any complete arrival of a peer packet in between (first arrivals and duplicates)
+						for pos, w := range cv.wire {
+							if w.Seg == sj && pos > finPos[d] && pos < arrival[si] && (w.NFrag == 1 || pos == arrival[sj]) {
+								peerBetween = true
+							}
+						}
+					}
+				}
+				if !peerBetween {
+					ce.Dir[d].AfterFins = true
+				}
+			}
 		}
 		ex.Conns = append(ex.Conns, ce)
 	}
